@@ -44,6 +44,8 @@ def make_model(rng, i, lock=False):
         # a self-locking chain under a load it cannot move at reduced duty cycle: instants at which the powertrain is held
         prof.update(p_overload=0.7, p_big_overload=0.2, p_ic_zero=0.6)
     spec = GEN.gen_scenario(rng, prof, force_selflock=True if lock else False)
+    if i % 10 == 7:
+        spec['motor']['i0'] = GEN.Q('Current', rng.choice([0, 0.0]), spec['motor']['imax']['u'])          # an ideal motor: no-load current exactly 0 (allowed)
     if i % 3 == 0:
         spec['load']['A'] = -abs(spec['load']['A']) - 0.05 * spec['_ref']['T_out']      # load helping the motor: negative motor load torque (defect D12's trigger)
     return spec
@@ -208,6 +210,8 @@ def set_state(b, spec, nums, rng, th_last, w_last, t, t_unit, T_load, t_raw=None
 def direct(ctx, i, rng, case):
     spec = make_model(rng, i)
     kind = ['const', 'reach', 'startprop', 'startlim'][(i // 2) % 4]
+    if kind == 'startlim' and (i // 8) % 3 == 0:
+        spec['motor']['i0'] = GEN.Q('Current', rng.choice([0, 0.0]), spec['motor']['imax']['u'])          # ideal motor (no-load current exactly 0)
     r = make_rule(rng, spec, kind)
     spec['rules'] = []
     try:
@@ -232,6 +236,8 @@ def direct(ctx, i, rng, case):
         t = rng.uniform(0, 2) * ref['dt_si'] * ref['n']
         th_last = q(spec['ic']['pos']) + rng.uniform(-1, 2) * abs(ref['w_out'] * ref['dt_si'] * ref['n'])
         w_last = rng.uniform(-0.3, 1.3) * ref['w_out']
+        if kind == 'startlim' and j % 4 == 3:
+            w_last = rng.uniform(-1.2, -0.1) * ref['w_out']          # spinning backwards, as fast as it would forwards
         mode = j % 5
         bnd = None
         if kind == 'const':
